@@ -1245,6 +1245,15 @@ fn tier_levels(tier: Tier) -> Vec<LevelDef> {
             },
             big_level(&all_modes),
             many_chunks_level(),
+            // three calls: the smallest alphabet in which a third call can follow an empty piece,
+            // an encrypted piece and a piece that straddles the chunk size
+            LevelDef {
+                depth: 3,
+                modes: vec![Mode::N, Mode::Z],
+                css: vec![Cs::Sz(4), Cs::Default],
+                encs: vec![None, Some(0)],
+                alpha: CallAlphabet { payloads: names(&["1B", "empty", "cs+1"]), specs: vec![0], chunk_modes: vec![Mode::N] },
+            },
         ],
         Tier::Thorough => vec![
             big_level(&all_modes),
